@@ -30,7 +30,8 @@ enum class bson_errc
     expected_bson_document,
     invalid_regex_string,
     size_mismatch,
-    unknown_type
+    unknown_type,
+    invalid_key
 };
 
 class bson_error_category_impl
@@ -73,6 +74,8 @@ public:
                 return "Invalid regex string";
             case bson_errc::size_mismatch:
                 return "Document or array size doesn't match bytes read";
+            case bson_errc::invalid_key:
+                return "A key that contains a null character cannot be written as a BSON element name";
             default:
                 return "Unknown BSON parser error";
         }
